@@ -3,7 +3,7 @@ import numpy as np
 
 from vp.registry import contract
 from . import builders as B
-from .state import state_of, compare_states
+from .state import state_of, compare_states, independent
 from .c03 import _opaque_transform
 
 TRUSTED = [
@@ -63,6 +63,7 @@ def registration(ctx, name, src, res, T, order, mode, cval, spy=None, mask_mode=
     else:
         exp = src.sample(pts, order=order, mode=mode, cval=cval)
     ctx.check_true(name + '/class-kept', type(res) is type(src))
+    independent(ctx, name + '/result-shares-no-mutable-storage-with-the-source-image', res, src)
     ctx.check_eq(name + '/pixels[q]==Sample(src, T(q))', np.asarray(res.pixels).reshape(C, -1), np.asarray(exp))
     ctx.check_true(name + '/landmark-groups-kept', list(res.landmarks) == list(src.landmarks))
     for g in src.landmarks:
